@@ -1412,6 +1412,9 @@ class Interp:
         if not hasattr(it, '_lazy_map'):
             return ('concrete', it)
         interp = self
+        # Elements are evaluated on demand (at Skolem indexes), i.e. later than Python would: freeze the bindings the
+        # element expression can see, so a later rebinding of a name (arr = fromiter(...)) is not observed.
+        env = self._snapshot_env(env)
 
         def elt_fn(item):
             cenv = Env(env.module, parent=env, cls=env.cls, self_obj=env.self_obj)
@@ -1425,6 +1428,23 @@ class Interp:
                 interp.assign(g.target, item, cenv)
                 return s_and(*[truthy(interp.eval(c, cenv)) for c in g.ifs])
         return ('lazy', it._lazy_map(elt_fn, conds))
+
+    def _snapshot_env(self, env):
+        frames = []
+        e = env
+        while e is not None:
+            frames.append(e)
+            e = e.parent
+        new_parent = None
+        for fr in reversed(frames):
+            if fr.vars is fr.module.env:
+                cp = fr                      # module globals are shared, not frozen
+            else:
+                cp = Env(fr.module, parent=new_parent, cls=fr.cls, self_obj=fr.self_obj)
+                cp.vars = dict(fr.vars) if isinstance(fr.vars, dict) and type(fr.vars) is dict else fr.vars
+                cp.nonlocals, cp.globals_ = set(fr.nonlocals), set(fr.globals_)
+            new_parent = cp
+        return new_parent
 
     def ex_ListComp(self, e, env):
         lz = self._lazy_comp(e, env)
